@@ -463,6 +463,10 @@ def gen_planted(rng):
                 ["actions"] + acts, ["goals", fl(["o", objs[0][0], "T"])], ["traj"], ["metrics"]]
     # fluents s, s_0, not_s negated in preconditions / goals
     names = [s, s + "_0", "not_" + s] + (["not_" + s + "_0"] if rng.random() < 0.3 else [])
+    if rng.random() < 0.5:
+        # deeper chains: s_1 (and s_2) too, so that the negation of s has to skip SEVERAL names handed out earlier in this
+        # very compilation (not_s_0, not_s_1 are the natural negations of s_0, s_1), in every order of first use
+        names += [s + "_1"] + ([s + "_2"] if rng.random() < 0.4 else [])
     refs = [[n, "bool", []] for n in names]
     rng.shuffle(refs)
     pre = [["not", ["fl", r]] for r in refs if rng.random() < 0.8]
@@ -789,8 +793,26 @@ CHEAP = ["grounder", "cond", "disj", "neg", "quant", "utf", "bounded", "inv", "u
          "t2s", "d2p", "d2p"]
 
 
+def negation_chain_cases():
+    """deterministic: fluents a, a_0, a_1 and not_a, negated in every order of first use (the negative-conditions
+    remover must name the negation of `a` past BOTH not_a_0 and not_a_1 whichever was handed out first)"""
+    import itertools
+    for order in itertools.permutations(["a_1", "a_0", "a"]):
+        for extra in ([], ["not_a_0"]):
+            decl = ["a_1", "a_0", "a", "not_a", "done"] + extra
+            refs = {n: [n, "bool", []] for n in decl}
+            pre = [["not", ["fl", refs[n]]] for n in order]
+            act = ["action", "act", [], ["pre"] + pre, ["effs", ["eff", "assign", ["fl", refs["done"]], ["b", "T"], ["b", "T"], []]]]
+            yield ["problem", "p", ["types"], ["objects"], ["fluents"] + [[refs[n], ["b", "F"]] for n in decl], ["init"],
+                   ["actions", act], ["goals", ["fl", refs["done"]]], ["traj"], ["metrics"]]
+
+
 def cases(rng, tier):
     n = QUICK if tier == "quick" else THOROUGH
+    neg = [c for c in CHEAP if c in ("neg", "pipe-qcdn")]
+    for ps in negation_chain_cases():
+        for cn in (neg or CHEAP[:1]):
+            yield ["compile", cn, ps]
     for kind, (a, b, c) in enumerate(zip(*[_spread(n[k], 10) for k in ("fresh", "result", "problems")])):
         for _ in range(a):
             yield gen_fresh(rng)
